@@ -18,7 +18,7 @@ func init() {
 			"(R2) the kill routine forwards Kill (same poison flag) to every child, one call per iteration, never leaving the loop early; (R3) the killed mark is taken only on the 'no children left' edge and every later step of the kill chain does nothing unless the mark was won; " +
 			"(R4) on the terminating path unsubscribe-all, registry removal, one OnKilled to every watcher and to the parent, ActorKilledEvent and scheduler clear each happen exactly once, and none of the first five is reachable on the restart path; the registry removal precedes every termination notice; " +
 			"(R5) ActorOf refuses when the parent is killed and kills the new child when the parent is killing; (R6) a child's death is recorded before the killed gate is evaluated. " +
-			"NOT decided: cross-actor ordering of termination reports at run time, concurrent kills racing spawns.",
+			"(R9 = C20.R1) the scheduler-cleanup step deletes every recorded job, the loop is never left early. NOT decided: cross-actor ordering of termination reports at run time, concurrent kills racing spawns.",
 		Assumptions: []string{"the kill chain steps are exactly the functions appended in the context's kill-chain builder (chain idiom)"},
 		Rules: []Rule{
 			{ID: "C06.R1", Min: 5, Desc: "one-shot kill entry; state writers", Fn: c06OneShot},
@@ -28,6 +28,7 @@ func init() {
 			{ID: "C06.R5", Min: 2, Desc: "spawn while dying", Fn: c06SpawnWhileDying},
 			{ID: "C06.R6", Min: 1, Desc: "child death recorded before the killed gate", Fn: c06ChainOrder},
 			{ID: "C06.R8", Min: 4, Desc: "every spawned child is in the parent's child table before it runs, so the kill fan-out reaches it (C05.R2)", Fn: c05Spawn},
+			{ID: "C06.R9", Min: 2, Desc: "scheduler jobs of a dead actor are all deleted (C20.R1)", Fn: c20Die},
 			{ID: "C06.R7", Min: 8, Desc: "subscription indexes stay consistent, so unsubscribe-all on termination finds every subscription (C19.R2)", Fn: c19Indexes},
 		},
 	})
